@@ -3,6 +3,7 @@
 // Mirrors lean/Nstd/Server/Driver.lean (namespace C14).
 #pragma once
 #include <poll.h>
+#include <pthread.h>
 #include <netinet/in.h>
 #include <arpa/inet.h>
 
@@ -284,6 +285,24 @@ static int c14Wait(int epfd, struct epoll_event* ev, int max, int timeout)
   return m;
 }
 
+// ---- run() against a real second thread calling interrupt() ----------------------------------
+static long c14MtDelayUs = 0;
+static void* c14MtThread(void*)
+{
+  if(c14MtDelayUs > 0) usleep((useconds_t)c14MtDelayUs);
+  c14Srv->interrupt();
+  return 0;
+}
+
+static int c14WaitMt(int epfd, struct epoll_event* ev, int max, int timeout)
+{ // really blocks (virtual time stands still); a lost interrupt shows as a 5 s time-out
+  if(++c14WaitCalls > 4000) { fprintf(stderr, "c14: run() does not return\n"); _exit(3); }
+  int t = (timeout < 0 || timeout > 5000) ? 5000 : timeout;
+  int n = ipRealEpollWait(epfd, ev, max, t);
+  if(n == 0 && t == 5000) { ipFail("interrupt() from the second thread did not wake run()"); c14Srv->interrupt(); }
+  return n;
+}
+
 // ---- life cycle ------------------------------------------------------------------------------
 static void c14Teardown()
 {
@@ -369,7 +388,7 @@ static bool c14Op(HxLine& l)
   const char* op = l.tok[0];
   bool known = !strcmp(op, "script") || !strcmp(op, "act") || !strcmp(op, "mkpair") || !strcmp(op, "mklisten") ||
                !strcmp(op, "mkconn") || !strcmp(op, "psend") || !strcmp(op, "pclose") || !strcmp(op, "dial") ||
-               !strcmp(op, "adv") || !strcmp(op, "run") || !strcmp(op, "cfail");
+               !strcmp(op, "adv") || !strcmp(op, "run") || !strcmp(op, "cfail") || !strcmp(op, "runmt");
   if(!known) return false;
   if(!c14Srv) c14Setup();
   long a = 0, b = 0;
@@ -494,6 +513,22 @@ static bool c14Op(HxLine& l)
         c14WaitFd(o->fd, POLLIN);
       }
     c14Observe("ok");
+    return true;
+  }
+  if(hxIs(l, "runmt", 1))
+  {
+    if(!c14Num(l.tok[1], a) || a > 100000) { printf("bad-op"); hxEndLine(); return true; }
+    c14MtDelayUs = a; c14WaitCalls = 0; c14LogLen = 0;
+    ipWaitHook = c14WaitMt;
+    pthread_t th;
+    if(pthread_create(&th, 0, c14MtThread, 0)) ipFail("pthread_create");
+    c14Srv->run();
+    pthread_join(th, 0);
+    ipWaitHook = 0;
+    c14LogAdd("ret", 0, 0);
+    c14Log[c14LogLen] = 0;
+    c14Observe(c14Log);
+    c14LogLen = 0;
     return true;
   }
   if(l.ntok >= 2 && !strcmp(op, "run"))
